@@ -3,7 +3,7 @@
 import re, random
 from . import common as C
 from .runner import Prop, Batch
-from .frpgen import Profile, gen_scripts, is_K1, is_K5, is_K3_leak
+from .frpgen import Profile, gen_scripts, is_K1, is_K5, is_K3_leak, is_K3_lazy
 
 
 def strip_ann(lines):
@@ -23,7 +23,7 @@ def anns(line):
 
 class FrpProp(Prop):
     default_mode = "frp-run"
-    category = "translation_validation"
+    category = "proof"
     design_ref = "DESIGN.md section 6"
     level_text = ("The implementation's observations (per-listener call sequences, samples, forced lazies, post markers, panics) equal "
                   "those of the executable denotational specification Spec/Sodium.v (extracted from Coq) on every generated script of "
@@ -57,6 +57,8 @@ class FrpProp(Prop):
     def known_class(self, batch, name, lines, out, why):
         if is_K1(lines):
             return "K1"
+        if ("forced" in why or "sample" in why or "=[" in why) and "still alive" not in why and is_K3_lazy(lines):
+            return "K3"
         if "still alive after every handle was dropped" in why and is_K5(lines):
             return "K5"
         if "still alive after every handle was dropped" in why and is_K3_leak(lines):
@@ -121,6 +123,8 @@ class FrpProp(Prop):
 
 class C02(FrpProp):
     pid = "C02"
+    level_text = "Theorems: (1) Props/Refine.v - for every program of the static fragment, every state and every set of simultaneous sends, the operational engine (Model/Engine.v running the transliterated update closures, Model/Net.v) ends every stream node with exactly the occurrence the specification assigns, each closure run at most once after its inputs settled, for every dependents order and send order, over whole histories; (2) Props/C02.v - the specification's equations for map/filter/merge (receiver left; or_else keeps left)/snapshot (pre-transaction cell values)/gate/once (first event only, flag set forever) at any depth of composition. Tie: spec correspondence on generated compositions + C03's exact engine correspondence."
+    extra_props = ["Refine"]
     tag = "c02"
     profile = Profile(w=dict(map=10, map_to=3, filter=6, filter_opt=3, gate=4, merge=10, or_else=4, snapshot=8, snapshot1=2,
                              once=4, hold=5, csink=3, sink=5, sink_co=2, const=2, never=1, map_c=2, lift=2),
@@ -140,6 +144,8 @@ def W(**kw):
 
 class C01(FrpProp):
     pid = "C01"
+    extra_props = ["Refine"]
+    level_text = 'Theorems over the specification Spec/Sodium.v for ALL programs/histories: listener calls are produced only by the step that closes the outermost transaction (any nesting of closure and scoped brackets); that close calls each active listener exactly once iff its stream fires, with that value, and nobody else; listener keys stay distinct; the next transaction starts with no sends (no carry-over). Refine_history: on the static fragment the operational engine delivers exactly these calls. Tie: differential correspondence of the real library against the extracted specification on generated scripts with sends/listens/constructions at every position of nested brackets.'
     tag = "c01"
     profile = Profile(w=W(), p_block=0.8, p_nested=0.3, p_scoped=0.25, p_def_in_txn=0.3, p_listen_late=0.5,
                       p_unlisten=0.2, n_txn=(4, 12))
@@ -147,6 +153,8 @@ class C01(FrpProp):
 
 class C04(FrpProp):
     pid = "C04"
+    level_text = 'Theorems over the specification for ALL histories: every read during a transaction sees the pre-transaction value (sends do not change cur; sample position irrelevant); hold commits the event as next value with or without listeners and equals the last event so far; accum and collect, built exactly as the library builds them (loop + hold + snapshot), equal the left fold of the function over the whole event history with one update per input event; a cell created after its source fired takes that event. Refine_* : the engine computes the specified updates on the static fragment. Tie: spec correspondence with samples at random positions, lazies shared between cells, long histories.'
+    extra_props = ["Refine"]
     tag = "c04"
     profile = Profile(w=W(hold=12, accum=8, collect=6, snapshot=10, csink=5, hold_lazy=5, accum_lazy=4, gate=4),
                       p_sample=0.7, p_def_in_txn=0.25, n_txn=(5, 20), p_listen_late=0.2, p_lazy=0.25)
@@ -154,6 +162,7 @@ class C04(FrpProp):
 
 class C05(FrpProp):
     pid = "C05"
+    level_text = "Theorems over the specification: switch_s follows the stream the outer cell held at the START of the transaction (effective next transaction, back and forth, same stream); switch_c's update in a switching transaction is the new inner's update or current value, otherwise the current inner's update; invariant: the switch_c cell always equals the cell currently held by the outer cell, preserved by every close over any history. The operational re-wiring of switch is NOT modelled (outside the proved Net fragment): covered by the correspondence only. Known finding K1 (cyclic outer cell) is reported, not suppressed for other shapes."
     tag = "c05"
     profile = Profile(w=W(switch_s=10, switch_c=10, hold=8, map_c=6, defer=3, split=2, sloop=1, cloop=1), n_defs=(5, 14),
                       n_txn=(5, 16), p_block=0.7, p_sample=0.5, p_post=0.1, p_def_in_txn=0.1)
@@ -161,6 +170,7 @@ class C05(FrpProp):
 
 class C10(FrpProp):
     pid = "C10"
+    level_text = "Theorems over the specification: after unlisten (at any depth, also inside an open transaction) no call to that listener ever again until re-registered; unlisten twice = once; a listener registered inside a transaction receives that transaction's event including sends made before the registration; Cell::listen delivers exactly the current value, or the update of that very transaction. Strong-listener keep-alive is covered by the correspondence under handle drops and collections (memory management is not in the specification)."
     tag = "c10"
     profile = Profile(w=W(), p_listen_late=0.8, p_unlisten=0.5, listen_cells=0.5, p_block=0.6, p_mem=0.2, weak=0.0,
                       n_txn=(5, 14))
@@ -168,18 +178,22 @@ class C10(FrpProp):
 
 class C11(FrpProp):
     pid = "C11"
+    level_text = 'Theorems over the specification: occ/upd/cur of a loop equal those of its target; substitution theorem: replacing every use of a loop by its target changes no occurrence, update, value, observation or failure of any transaction (for legal programs, any number of nested loops); double loop_ fails with AlreadyLooped and sampling an unlooped CellLoop fails with SampledBeforeLoop, propagating through map/lift, never yielding a value. Tie: generated loop programs; panic kinds compared.'
     tag = "c11"
     profile = Profile(w=W(sloop=8, cloop=8, hold=10, snapshot=8), n_defs=(4, 10), n_txn=(4, 12))
 
 
 class C12(FrpProp):
     pid = "C12"
+    level_text = "Theorems over the specification: deferred work and posts run only after the commit of the closing transaction (BPost carries post-commit values); each deferred event runs in a transaction of its own whose only injected event is that one; every queued item is run exactly once (permutation of executed vs enqueued items for any choice list) and items of one source in enqueue order; post outside a transaction runs in the same step. Tie: guided correspondence that follows the implementation's order among the allowed ones."
     tag = "c12"
     profile = Profile(w=W(defer=8, split=6, hold=10, snapshot=8), p_post=0.3, n_defs=(5, 12), n_txn=(4, 10))
 
 
 class C13(FrpProp):
     pid = "C13"
+    level_text = 'Theorems: invariant Consistent (every map_c cell = f(input), every lift cell = f(inputs)) holds initially and is preserved by every transaction close for any tower and any subset of updated inputs; fresh cells compute the same from their inputs; the update of a lift/map fires iff some input updates, with f of new-or-current inputs. Refine_*: the engine computes exactly these updates, once, after all inputs settled (glitch-free). Tie: towers with samples inside and between transactions.'
+    extra_props = ["Refine"]
     tag = "c13"
     profile = Profile(w=W(map_c=14, lift=16, hold=8, csink=6, updates=5, value=4, sloop=2, cloop=3, switch_c=3),
                       p_sample=0.8, p_def_in_txn=0.25, listen_cells=0.6, n_txn=(4, 12))
@@ -201,6 +215,7 @@ def quiescence_oracle(lines, out):
 
 class C14(FrpProp):
     pid = "C14"
+    level_text = "Theorems over the specification's bracket machine: the end of transaction runs exactly when the depth returns from 1 to 0 (closure or scoped close, characterised by `closes`); close after close / repeated close / close of an unknown transaction is a no-op; drop = close; after every closing step the context is quiescent (no sends, posts, fresh objects pending) for every run from the initial state; an empty transaction delivers nothing; depth arithmetic for nested brackets. Tie: correspondence + the implementation's own depth/queue/firing-slot state (hook annotations) must be quiescent after every top-level line."
     tag = "c14"
 
     def extra_oracle(self, lines, out):
@@ -210,6 +225,7 @@ class C14(FrpProp):
 
 class C15(FrpProp):
     pid = "C15"
+    level_text = "Theorems: a sink's occurrence is the coalescing of exactly the values sent to it in the transaction, in send order across nested brackets; coalesce with a combining function is the left fold in send order (for every, also non-commutative, function), without it the last value; the transliteration of Stream::_send applied send by send computes the same; a cell sink is a hold over a sink (initial value until the first send, then the last value sent). Tie: correspondence with multiple sends spread over nested brackets."
     tag = "c15"
     profile = Profile(w=W(sink_co=8, csink=6, sink=6), max_sinks=5, p_block=0.9, p_nested=0.5, p_scoped=0.2,
                       n_txn=(4, 12), p_sample=0.5)
@@ -217,6 +233,7 @@ class C15(FrpProp):
 
 class C17(FrpProp):
     pid = "C17"
+    level_text = "Theorems: operational model of lazy.rs (shared thunk/value cells): for any interleaving of new/clone/run the thunk is evaluated at most once and every run through every clone returns the same value; specification: a lazy taken by sample_lazy in transaction T denotes cur of the cell as of T however many transactions later it is forced, through clones, and hold_lazy starts from that value. Known finding K3 (switch_c's initial thunk) is classified by a computable predicate."
     tag = "c17"
     profile = Profile(w=W(hold_lazy=6, accum_lazy=4, map_c=8, lift=8, cloop=3, hold=6, switch_c=1), p_lazy=0.7, p_sample=0.3,
                       n_txn=(4, 14))
@@ -224,12 +241,14 @@ class C17(FrpProp):
 
 class C18(FrpProp):
     pid = "C18"
+    level_text = "Theorems: a route fires v iff the router's input fires v and the key occurs in the selector's result (multiplicity irrelevant), equal at every fuel to the filter with that predicate; operational model of router.rs's update loop meets it (many sends of the same value to one routed stream = one firing); listener-level iff/once theorems. Refine_*: routes inside the proved engine fragment. Tie: correspondence with routes requested before/after events, dropped and re-requested, router handle dropped."
     tag = "c18"
     profile = Profile(w=W(router=12, filter=6), p_mem=0.2, p_def_in_txn=0.2, n_txn=(4, 12))
 
 
 class C06(FrpProp):
     pid = "C06"
+    category = "translation_validation"
     tag = "c06"
     profile = Profile(w=W(sloop=4, cloop=4, switch_s=4, switch_c=4, accum=6, collect=5, defer=2, router=2), p_mem=0.7,
                       n_txn=(5, 14), p_listen_late=0.3)
@@ -278,6 +297,7 @@ def everything_dropped(lines):
 
 class C07(FrpProp):
     pid = "C07"
+    category = "translation_validation"
     tag = "c07"
 
     def extra_oracle(self, lines, out):
@@ -293,5 +313,6 @@ class C07(FrpProp):
 
 class C09(FrpProp):
     pid = "C09"
+    level_text = 'Theorems over the specification: clone/drop/gc map to ONop which changes nothing observable; occ/upd/cur depend on the tables only through lookup, so any reordering of definitions and listener registrations gives permuted-but-equal observations per listener (close_txn respects table permutation); the only choice left open is the order of deferred transactions of different sources. Refine_any_order: the engine result is independent of dependents/queue order. Tie: generated programs with handle churn and collections; metamorphic equality through the common oracle.'
     tag = "c09"
     profile = Profile(w=W(sloop=3, cloop=3, switch_s=3, switch_c=3, defer=2, split=2), p_mem=0.5, n_txn=(4, 10))
